@@ -510,6 +510,10 @@ CATALOGUE['C03'] += [
   (F, 'R-PASSMASK', 'pncgen.py', "            if isinstance(nvar, MaskedArray):\n                # an in-memory masked variable keeps the mask itself\n                nvar[:] = pvar[...]\n            else:\n                nvar[:] = pvar[...].filled(getattr(\n                    nvar, 'fill_value', getattr(\n                        nvar, '_FillValue',\n                        getattr(pvar, 'missing_value', -9999))))\n", "            nvar[:] = pvar[...].filled(getattr(nvar, 'fill_value', getattr(\n                nvar, '_FillValue', getattr(pvar, 'missing_value', -9999))))\n"),
 ]
 
+CATALOGUE['C14'] += [
+  (F, 'R-PARTIALRAISE', 'camxfiles/one3d/Memmap.py', "        if self.__records % lays != 0:\n            raise ValueError('Incomplete time step: %d records of %d layers'\n                             % (self.__records, lays))\n", ""),
+]
+
 def _findings(prop, overlay):
     warnings.simplefilter('ignore')
     mod = importlib.import_module('pncstatic.rules.%s' % prop.lower())
